@@ -200,6 +200,18 @@ func runC20(t *simrt.Tape, o Opts) Outcome {
 				}
 			}
 		}
+		// with intermediate-key caching disabled by policy no intermediate key is retained between calls,
+		// whatever else is cached (sessions, system keys): every operation reads the key's record
+		ikNotRetained := func(op *world.OpRec, p *world.Proc, ikID string) {
+			if p.Cfg.CacheIK || op.Err != nil || op.Panic != "" {
+				return
+			}
+			count(st.Oracle, "ik-cache-off-reloads")
+			clauses["ik-cache-off"] = true
+			if readsOf(op, ikID) == 0 {
+				w.Violate("cache-off-no-reload", "cache-off-no-reload/intermediate-key/"+cacheKind(p.Cfg), "intermediate-key caching is disabled by policy but %s op %d did not read the intermediate key's record (session cache: %v)", op.Kind, op.Idx, p.Cfg.SessionCache)
+			}
+		}
 		noRetention := func(op *world.OpRec, p *world.Proc) {
 			if p.Cfg.CacheSK || p.Cfg.CacheIK || p.Cfg.SessionCache {
 				return
@@ -233,6 +245,7 @@ func runC20(t *simrt.Tape, o Opts) Outcome {
 			p := se.P
 			kmsClause(op, p)
 			noRetention(op, p)
+			ikNotRetained(op, p, rec.IKID)
 			if !p.Cfg.CacheIK || p.Cfg.SessionCache || !fitsIK(p.Cfg) {
 				return
 			}
@@ -282,6 +295,7 @@ func runC20(t *simrt.Tape, o Opts) Outcome {
 			skClause(op, p, rec)
 			kmsClause(op, p)
 			noRetention(op, p)
+			ikNotRetained(op, p, rec.IKID)
 			if !p.Cfg.CacheIK || p.Cfg.SessionCache || !fitsIK(p.Cfg) {
 				return
 			}
